@@ -96,6 +96,7 @@ structure WellFormed (cfg : Cfg) (b64 : String → Bool) (h : Hdr) (tx : Tx) : P
   payload : parseHex h.payload = some tx.payloadHash
   cty : tx.cty = h.cty ∧ containsSlash h.cty = true
   keyRef : tx.jwk = h.hasJwk ∧ tx.kid = h.kid.getD "" ∧ ((h.hasJwk = true ∧ h.kid.getD "" = "") ∨ (h.hasJwk = false ∧ h.kid.getD "" ≠ ""))
+  jwkPublic : cfg.jwkPublicOnly = true → h.hasJwk = true → h.jwkPrivate = false
   sigt : ∃ m e, h.get cfg.sigtH = some (.num m e) ∧ tx.sigt = toInt64 m e
   ver : ∃ m e, h.get cfg.verH = some (.num m e) ∧ tx.ver = toInt64 m e ∧ tx.ver ∈ cfg.allowedVersion
   prevs : ∃ l, h.get cfg.prevsH = some (.arr l) ∧ parsePrevEls cfg.prevsH l = .ok tx.prevs
@@ -115,7 +116,7 @@ theorem parse_wellFormed {cfg : Cfg} {b64 : String → Bool} {h : Hdr} {tx : Tx}
   obtain ⟨_, ha, payload, hpl, cty, hcty, kid, hkid, sigt, hsigt, ver, hver, prevs, hprevs, pal, hpal, lc, hlc, htx⟩ := hp
   simp only [pure, Res.ok.injEq] at htx
   subst htx
-  refine ⟨by omega, ?_, ?_, ?_, ?_, ?_, ?_, ?_, ?_, ?_, rfl⟩
+  refine ⟨by omega, ?_, ?_, ?_, ?_, ?_, ?_, ?_, ?_, ?_, ?_, rfl⟩
   · unfold parseSigningAlgorithm at ha
     split at ha
     · rename_i hc; exact ⟨rfl, by simpa using hc⟩
@@ -132,10 +133,20 @@ theorem parse_wellFormed {cfg : Cfg} {b64 : String → Bool} {h : Hdr} {tx : Tx}
     simp only at hkid
     split at hkid
     · cases hkid
+    · split at hkid
+      · cases hkid
+      · rename_i hc
+        cases hkid
+        refine ⟨rfl, rfl, ?_⟩
+        cases hj : h.hasJwk <;> simp [hj] at hc ⊢ <;> exact hc
+  · unfold parseSignatureParams at hkid
+    simp only at hkid
+    split at hkid
+    · cases hkid
     · rename_i hc
-      cases hkid
-      refine ⟨rfl, rfl, ?_⟩
-      cases hj : h.hasJwk <;> simp [hj] at hc ⊢ <;> exact hc
+      intro h1 h2
+      simp [h1, h2] at hc
+      exact hc
   · unfold parseSigningTime at hsigt
     split at hsigt
     · cases hsigt
